@@ -40,8 +40,8 @@ list.  (`nxDSeparatedUF` below transcribes the partition manipulation itself; `C
 agree.)
 
 One branch of `pruneLoop` is unreachable from `pruneLeaves`: a popped leaf that is no longer in the copy.  Python would
-raise `NetworkXError` from `G_copy.predecessors(leaf)`; the model skips the entry.  `CG.C11.pruneReach_leaf_present`
-proves that this never happens (every node enters the deque at most once).  The test `leaf ∈ N` is also what makes the
+raise `NetworkXError` from `G_copy.predecessors(leaf)`; the model skips the entry.  `CG.NxPrune.pruneReach_leaf_present`
+proves that this never happens on a run (every node enters the deque at most once).  The test `leaf ∈ N` is also what makes the
 loop terminate without fuel: the measure is `(N.length, Q.length)`, lexicographic.
 -/
 import CG.Model.DSep
